@@ -11,13 +11,15 @@ DRIVER = "c03"
 PROPS_MODULE = "OxyModel.Props.C14"
 AUDIT = "OxyModel/Audit/C14.lean"
 THEOREMS = ["C14.C14_rate_noninterference", "C14.C14_rate_noninterference_new", "C14.C14_evict_others_unchanged",
+            "C14.C14_evict_others_unchanged_rates", "C14.C14_rate_noninterference_rates",
             "C14.C14_within_capacity_no_eviction", "C14.C14_evict_min_only", "C14.C14_conn_noninterference"]
 RACE = False
 JOBS = 8
 RULE = ("scenario = interleaved history of 2-6 sources through one TokenLimiter (capacity below / at / above the number of sources) with, "
         "next to it, one private TokenLimiter per source fed only that source's requests (solo=1; a source named as eviction victim "
-        "restarts its private limiter); or interleaved starts/finishes through one ConnLimiter whose protected handler may rewrite the "
-        "request's source header to another source with an open connection before returning; plus (post_check) bare TTLMap histories "
+        "restarts its private limiter), also with per-request rate sets drawn from a few shared plans (one *RateSet object per plan, "
+        "sources moved between plans while others use them); or interleaved starts/finishes through one ConnLimiter whose protected handler may rewrite the "
+        "request's source header to another source with an open connection before returning, source tokens up to 300 bytes sharing long prefixes; plus (post_check) bare TTLMap histories "
         "with equal expiries whose eviction choice is read back from the implementation and checked legal by the model; "
         "non-trivial = >= 2 sources, both a 200 and a refusal, and (over-capacity scenarios) at least one eviction")
 ASSUMPTIONS = [
@@ -44,6 +46,39 @@ def _within(rng, n_ops):
     sources = ["s%d" % i for i in range(nsrc)]
     return (["cfg rate %s cap=%d solo=1" % (rc.fmt_rates(rates), cap)]
             + rc.gen_source_ops(rng, rates, sources, n_ops, allow_retry=False, allow_rates=False))
+
+
+def _plans(rng, n_ops):
+    """within capacity, per-request rate sets drawn from a few shared plans (the harness hands out one *RateSet object per
+    plan): sources are moved between plans while other sources use them; often a source's first request on a plan directly
+    follows another source's request on that plan"""
+    period = rng.choice([S, S, 2 * S, 10 * S, 10 ** 8])
+    plans = [""]
+    for b in rng.sample([1, 2, 3, 5, 8], rng.randint(2, 3)):
+        pl = [(period, rng.choice([1, 1, 2]), b)]
+        if rng.random() < 0.3:
+            pl.append((60 * period, 30, rng.choice([3, 10])))
+        plans.append(rc.fmt_rates(pl))
+    default = [(period, 1, rng.choice([1, 2, 4]))]
+    nsrc = rng.randint(2, 4)
+    sources = ["s%d" % i for i in range(nsrc)]
+    lines = ["cfg rate %s cap=%d solo=1" % (rc.fmt_rates(default), nsrc + rng.choice([0, 1]))]
+    plan = {s: rng.choice(plans) for s in sources}
+    t = rng.choice([0, 5, S - 1])
+    prev_plan = None
+    while len(lines) < n_ops:
+        src = rng.choice(sources)
+        r = rng.random()
+        if r < 0.25 and prev_plan is not None and plan[src] != prev_plan:
+            plan[src] = prev_plan            # switch to the plan the previous request (any source) ran on
+        elif r < 0.35:
+            plan[src] = rng.choice(plans)
+        for _ in range(rng.choice([1, 1, 2, 3])):
+            amt = rng.choice([1, 1, 1, 2, 0, 3])
+            lines.append("at %d req %s %d%s" % (t, src, amt, " rates=" + plan[src] if plan[src] else ""))
+            t += rng.choice([0, 0, 0, 1, period // 4, period, period + 1])
+        prev_plan = plan[src]
+    return lines
 
 
 def _over(rng, n_ops, rates=None, cap=None, nsrc=None):
@@ -89,6 +124,16 @@ def _conn(rng, n_ops):
     on the source captured before acquire"""
     mx = rng.choice([1, 1, 2, 3])
     nsrc = rng.randint(2, 4)
+    if rng.random() < 0.4:
+        # long source tokens (65-300 bytes) sharing long prefixes, some differing only in the last byte
+        plen = rng.choice([63, 64, 64, 65, 100, 128, 255, 290])
+        pre = rng.choice(["p", "ab", "10.0.0."]) * plen
+        pre = pre[:plen]
+        names = [pre + "x", pre + "y", pre + "x" * rng.randint(2, 10), pre, pre[:-1] + "q" + "z" * rng.randint(0, 5)]
+        rng.shuffle(names)
+        names = names[:nsrc]
+    else:
+        names = ["c%d" % i for i in range(nsrc)]
     lines = ["cfg conn max=%d" % mx]
     live = {}          # id -> src, admitted according to the source's own history
     nid = 0
@@ -111,7 +156,7 @@ def _conn(rng, n_ops):
                 lines.append("finish %s" % i)
         else:
             nid += 1
-            src = "c%d" % rng.randrange(nsrc)
+            src = rng.choice(names)
             lines.append("start r%d %s" % (nid, src))
             if sum(1 for x in live.values() if x == src) < mx:
                 live["r%d" % nid] = src
@@ -125,8 +170,10 @@ def gen(rng, tier):
     n_ops = {"quick": 90, "thorough": 200, "search": 120}.get(tier, 90)
     for k in range(n_scen):
         style = rng.random()
-        if style < 0.4:
+        if style < 0.25:
             yield _within(rng, rng.randint(20, n_ops))
+        elif style < 0.4:
+            yield _plans(rng, rng.randint(12, n_ops))
         elif style < 0.85:
             yield _over(rng, rng.randint(20, n_ops))
         else:
@@ -175,12 +222,25 @@ def _monitor_rate(ops, outs):
         return ["broken: line %d: %s" % broken]
     if not evs or evs[0].solo is None:
         return []
-    if any(e.rates for e in evs) or any(e.retry for e in evs):
+    if any(e.retry for e in evs):
         return []
     rates = rc.parse_rates(cfg[2])
     ttl = rc.ttl_of(rates)
     cap = int(rc.kv(cfg, "cap") or 0) or 65536
     bad = []
+    if len(set(e.src for e in evs)) <= cap and not any(e.evict for e in evs):
+        # within capacity nothing is ever forgotten to make room: every decision must equal the solo one, whatever
+        # rate sets the requests carry
+        for e in evs:
+            if e.solo != _main_str(e):
+                bad.append("interference: line %d source %s amount %d at %d%s was answered %s in the shared limiter but %s when its "
+                           "requests are issued alone (sources within capacity)"
+                           % (e.idx, e.src, e.amount, e.t, " rates=" + e.rates if e.rates else "", _main_str(e), e.solo))
+                if len(bad) >= 3:
+                    break
+        return bad
+    if any(e.rates for e in evs):
+        return []
     tracked = {}
     for e in evs:
         sec = e.t // S
